@@ -282,6 +282,36 @@ class MiniEval:
                 return tuple(self.iterate(args[0]))
             if d == "len" and len(args) == 1:
                 return len(self.iterate(args[0]))
+            # mutation of a local container through its methods (values are immutable here: the name is re-bound)
+            if isinstance(e.func, ast.Attribute) and isinstance(e.func.value, ast.Name) and e.func.value.id in env and e.func.attr in ("add", "update", "discard", "remove", "append", "extend", "clear"):
+                nm, cur = e.func.value.id, env[e.func.value.id]
+                if isinstance(cur, (set, frozenset)):
+                    if e.func.attr == "add" and len(args) == 1:
+                        env[nm] = frozenset(cur | {args[0]})
+                    elif e.func.attr == "update":
+                        new = set(cur)
+                        for a in args:
+                            new |= set(self.iterate(a))
+                        env[nm] = frozenset(new)
+                    elif e.func.attr in ("discard", "remove") and len(args) == 1:
+                        if e.func.attr == "remove" and args[0] not in cur:
+                            raise AnalysisError("minieval: set.remove of a missing element")
+                        env[nm] = frozenset(cur - {args[0]})
+                    elif e.func.attr == "clear":
+                        env[nm] = frozenset()
+                    else:
+                        raise AnalysisError(f"minieval: unsupported set method {e.func.attr}")
+                    return None
+                if isinstance(cur, (tuple, list)):
+                    if e.func.attr == "append" and len(args) == 1:
+                        env[nm] = tuple(cur) + (args[0],)
+                    elif e.func.attr == "extend" and len(args) == 1:
+                        env[nm] = tuple(cur) + tuple(self.iterate(args[0]))
+                    elif e.func.attr == "clear":
+                        env[nm] = ()
+                    else:
+                        raise AnalysisError(f"minieval: unsupported list method {e.func.attr}")
+                    return None
             if isinstance(e.func, ast.Attribute) and e.func.attr in ("items", "keys", "values") and not args:
                 c = self.expr(e.func.value, env)
                 if isinstance(c, dict):
